@@ -23,7 +23,7 @@ MIN_NONTRIVIAL = {"quick": 800, "thorough": 20000}
 
 
 def generate(tier, seed):
-    reps = 1 if tier == "quick" else 40
+    reps = 1 if tier == "quick" else 150
     cases = []
     for rep in range(reps):
         for chunk in range(48):
